@@ -118,6 +118,29 @@ def gen_case(seed):
         maybe_query()
         if rng.random() < 0.4:
             maybe_query()
+    if rng.random() < 0.2:
+        # a name is bound to a callable of another package for a while and then to the same memento function again,
+        # with the functions that use it asked for their version in between
+        cands = [n["id"] for n in cur["nodes"] if n["kind"] == "memento" and n["id"] != 0 and not n.get("frozen")
+                 and not progen.in_cycle(cur, n["id"])
+                 and not any(c["to"] == n["id"] and c["form"] == "declared" for a in cur["nodes"] for c in a["calls"])
+                 and any(c["to"] == n["id"] and c["form"] in ("bare", "attr") for a in cur["nodes"] if a["kind"] == "memento" for c in a["calls"])]
+        if cands:
+            j = cands[rng.randrange(len(cands))]
+            for to in ("foreign", "memento"):
+                counter += 1
+                e = {"kind": "swap_kind", "node": j, "to_kind": to}
+                new, touched = evo.apply_with_discipline(cur, e, counter)
+                ordk = {"g": 0, "b": 0, "n": 1, "a": 2, "w": 2}
+                for u in sorted(touched, key=lambda u: (ordk[u[0]], u[1])):
+                    ev = unit_cell(new, u)
+                    ev["kind"] = "swap_kind"
+                    events.append(ev)
+                    defined.add(u)
+                cur = new
+                callers = [n for n in cur["nodes"] if n["kind"] == "memento" and any(c["to"] == j for c in n["calls"])]
+                events.append({"op": "query", "nodes": [[n["id"], rng.choice(["attr", "qn"])] for n in callers], "prog": copy.deepcopy(cur),
+                               "defined": sorted(n["id"] for n in cur["nodes"] if ("n", n["id"]) in defined)})
     names = [n for n in cur["nodes"] if n["kind"] == "memento"]
     events.append({"op": "query", "nodes": [[n["id"], "attr"] for n in names], "prog": copy.deepcopy(cur),
                    "defined": sorted(n["id"] for n in cur["nodes"])})
